@@ -246,6 +246,26 @@ def _w_api(job: Tuple[str, str, List[Any], str, bool]) -> List[Tuple[str, str, s
     return out
 
 
+TableJob = Tuple[List[N.Col], List[str], List[List[Any]], str, Optional[Dict[str, Any]]]
+
+
+def _w_tables(jobs: List[TableJob]) -> List[Tuple[str, str, str, str]]:
+    core.boot(full=True)
+    out = []
+    for cols, columns, rows, form, dtypes in jobs:
+        v, r = N.both(cols, columns, rows, form, dtypes)
+        out.append((v[0], r[0], N.show(v), N.show(r)))
+    return out
+
+
+def tables_many(pool: Any, jobs: List[TableJob]) -> List[Tuple[str, str, str, str]]:
+    k = max(2, len(jobs) // (core.NCPU * 3) + 1)
+    out: List[Tuple[str, str, str, str]] = []
+    for part in pool.map(_w_tables, [list(c) for c in K.chunks(jobs, k)]):
+        out.extend(part)
+    return out
+
+
 def api_many(pool: Any, tname: str, form: str, vals: List[Any], role: str = "Measure", nullable: bool = True
              ) -> List[Tuple[str, str, str, str]]:
     k = max(8, len(vals) // (core.NCPU * 3) + 1)
@@ -395,7 +415,9 @@ def analyse_task(task: Tuple[str, str, str, bool, Tuple[int, str], List[str]]) -
             comp = [o for o in other if compatible(pc, o)]
             cases.append(pc + ([Not(Or(*[And(*o) for o in comp]))] if comp else []))
         prefix = f"{tname}::{form}::{d}::"
-        listed = {k[len(prefix):] for k in known if k.startswith(prefix) and not k.endswith("::identifier")}
+        table = {e[0] for e in K.CLASSES.get(tname, [])}
+        listed = {k[len(prefix):] for k in known if k.startswith(prefix)}
+        listed = {c for c in listed if c in table or c.startswith("other:")}     # value classes only (not null-cell / dtype keys)
         excluded: set = set()
         seen_cls: set = set()
         pending = list(range(len(cases)))
@@ -586,13 +608,18 @@ def main() -> None:  # noqa: C901
                 ob.detail = (f"lengths {lengths(tname, chk.tier)}: merged two-sided path queries all unsat{shared}" +
                              (f"; regions set aside as known findings: {sorted(set(aside))}" if aside else ""))
 
+    phases: Dict[str, float] = {"symbolic": round(time.time() - chk.t0, 1)}
     if not only:
-        L.conformance(chk, programs, rnd, pool)
-        python_conformance(chk, cellmap, rnd)
-        cell_level(chk, cellmap, programs, pool, known)
-        api_level(chk, pool, known)
-        native_dtypes(chk, known)
-        structural(chk, known)
+        for name, fn_ in (("sql-conformance", lambda: L.conformance(chk, programs, rnd, pool)),
+                          ("python-conformance", lambda: python_conformance(chk, cellmap, rnd, pool)),
+                          ("cell-level", lambda: cell_level(chk, cellmap, programs, pool, known)),
+                          ("api-level", lambda: api_level(chk, pool, known)),
+                          ("native-dtypes", lambda: native_dtypes(chk, known, pool)),
+                          ("structural", lambda: structural(chk, known, pool))):
+            t1 = time.time()
+            fn_()
+            phases[name] = round(time.time() - t1, 1)
+    chk.extra["phase_seconds"] = phases
     pool.shutdown()
     if DISCOVER:
         import json
@@ -623,33 +650,43 @@ def main() -> None:  # noqa: C901
 # ----------------------------------------------------------------------------------------------------------------------
 # conformance of the Python model
 # ----------------------------------------------------------------------------------------------------------------------
-def python_conformance(chk: Check, cellmap: Dict[str, Tuple[str, Any]], rnd: random.Random) -> None:
+def _w_pyconf(job: Tuple[str, List[str]]) -> List[str]:
+    """Python model (constant folding of the same interpreter) vs the real per-cell function on concrete strings."""
+    tname, strs = job
+    core.boot(full=True)
+    cellmap = extract_cell_map()
+    eng = pycstr.CEngine()
+    fn = symbolic_cell_fn(eng, cellmap, tname)
+    faults: List[str] = []
+    for s in strs:
+        try:
+            ps = eng.explore(fn, [pycstr.CS.lit(s)])
+        except Exception as e:  # noqa: BLE001
+            faults.append(f"Python model failed on concrete input {s!r} ({tname}): {type(e).__name__}: {e}")
+            continue
+        real = native_cell(cellmap, tname, s)
+        if len(ps) != 1:
+            faults.append(f"Python model not deterministic on concrete input {s!r} ({tname}): {[p.kind for p in ps][:4]}")
+        elif ps[0].kind == "abort":
+            if L.in_domain(tname, s):
+                faults.append(f"Python model leaves the subset on {s!r} ({tname}) inside the proof domain: {ps[0].abort_reason}")
+        elif (ps[0].kind == "return") != (real[0] == "accept"):
+            faults.append(f"Python model / CPython mismatch on {s!r} ({tname}): model {ps[0].kind}, real {real[0]} {str(real[1])[:80]}")
+    return faults
+
+
+def python_conformance(chk: Check, cellmap: Dict[str, Tuple[str, Any]], rnd: random.Random, pool: Any) -> None:
     n_cmp = 0
+    jobs: List[Tuple[str, List[str]]] = []
     for tname in TEMPORAL:
         pool_ = [s for s in K.BOUNDARY[tname] if s]
         strs = sorted(set(L.sample_strings(tname, rnd, 250 if chk.tier == "quick" else 1500) + pool_))
         strs = [s for s in strs if s and all(LO <= ord(c) <= HI for c in s) and len(s) <= 40]
-        for s in strs:
-            eng = pycstr.CEngine()
-            try:
-                fn = symbolic_cell_fn(eng, cellmap, tname)
-                ps = eng.explore(fn, [pycstr.CS.lit(s)])
-            except Exception as e:  # noqa: BLE001
-                chk.fault(f"Python model failed on concrete input {s!r} ({tname}): {type(e).__name__}: {e}")
-                return
-            real = native_cell(cellmap, tname, s)
-            n_cmp += 1
-            if len(ps) != 1:
-                chk.fault(f"Python model not deterministic on concrete input {s!r} ({tname}): {[p.kind for p in ps][:4]}")
-                return
-            if ps[0].kind == "abort":
-                if pycstr.CS.lit(s) and L.in_domain(tname, s):
-                    chk.fault(f"Python model leaves the subset on {s!r} ({tname}) inside the proof domain: {ps[0].abort_reason}")
-                    return
-                continue
-            if (ps[0].kind == "return") != (real[0] == "accept"):
-                chk.fault(f"Python model / CPython mismatch on {s!r} ({tname}): model {ps[0].kind}, real {real[0]} {str(real[1])[:80]}")
-                return
+        n_cmp += len(strs)
+        jobs += [(tname, list(c)) for c in K.chunks(strs, max(10, len(strs) // core.NCPU + 1))]
+    for faults in pool.map(_w_pyconf, jobs):
+        for f in faults[:2]:
+            chk.fault(f)
     chk.extra["python_conformance_comparisons"] = n_cmp
 
 
@@ -773,18 +810,19 @@ def api_level(chk: Check, pool: Any, known: Dict[str, Any]) -> None:
                        "bounded-native")
             # NULL cell
             bad = {}
-            for role, nullable in (("Measure", True), ("Measure", False), ("Identifier", False), ("Attribute", True)):
-                v, r = api_pair(tname, form, None, role, nullable)
-                d = direction(v, r)
+            variants = (("Measure", True), ("Measure", False), ("Identifier", False), ("Attribute", True))
+            njobs: List[TableJob] = [(cols_for(tname, role, nullable), ["Id_1", X], [["k", None]], form, None) for role, nullable in variants]
+            for (role, nullable), (v0, r0, vs, rs) in zip(variants, tables_many(pool, njobs)):
+                d = direction((v0, None), (r0, None))
                 if d is not None:
                     bad[f"{tname}::{form}::{d}::null-cell::{role}::{'nullable' if nullable else 'not-null'}"] = (
-                        None, f"validate_dataset {N.show(v)}; run() loader {N.show(r)}")
+                        None, f"validate_dataset {vs}; run() loader {rs}")
             report(chk, fn, f"bounded::api::{tname}::{form}::null-cell",
                    f"[{tname}/{form}] a NULL cell in a nullable measure / non-nullable measure / identifier / attribute: both sides agree",
                    bad, known, 4, "bounded-native")
 
 
-def native_dtypes(chk: Check, known: Dict[str, Any]) -> None:
+def native_dtypes(chk: Check, known: Dict[str, Any], pool: Any) -> None:
     """DataFrames whose column is not a string column."""
     import datetime
 
@@ -820,19 +858,20 @@ def native_dtypes(chk: Check, known: Dict[str, Any]) -> None:
         ("Duration", "category", ["A", "M"], "category"),
     ]
     bad: Dict[str, Tuple[Any, str]] = {}
-    for tname, label, vals, dt in cases:
-        cols = [("Id_1", "Integer", "Identifier", False), (X, tname, "Measure", True)]
-        v, r = N.both(cols, ["Id_1", X], [[i + 1, x] for i, x in enumerate(vals)], "df", {"Id_1": "int64", X: dt})
-        d = direction(v, r)
+    jobs: List[TableJob] = [([("Id_1", "Integer", "Identifier", False), (X, tname, "Measure", True)], ["Id_1", X],
+                             [[i + 1, x] for i, x in enumerate(vals)], "df", {"Id_1": "int64", X: dt})
+                            for tname, _label, vals, dt in cases]
+    for (tname, label, vals, _dt), (v0, r0, vs, rs) in zip(cases, tables_many(pool, jobs)):
+        d = direction((v0, None), (r0, None))
         if d is not None:
-            bad[f"{tname}::df-native::{d}::{label}"] = (f"{label} {vals!r}", f"validate_dataset {N.show(v)}; run() loader {N.show(r)}")
+            bad[f"{tname}::df-native::{d}::{label}"] = (f"{label} {vals!r}", f"validate_dataset {vs}; run() loader {rs}")
     report(chk, fn, "bounded::api::native-dtypes",
            f"{len(cases)} two-row DataFrames whose measure column has a native dtype (int64, float64 incl. NaN/inf/fractions, bool, "
            "nullable extension dtypes, datetime64, objects mixed with None, category) for every type: both sides agree", bad, known,
            len(cases), "bounded-native")
 
 
-def structural(chk: Check, known: Dict[str, Any]) -> None:
+def structural(chk: Check, known: Dict[str, Any], pool: Any) -> None:
     good = {"Integer": ["1", "2"], "Number": ["1.5", "2.5"], "String": ["a", "b"], "Boolean": ["true", "false"],
             "Date": ["2020-01-15", "2021-02-01"], "Time_Period": ["2020Q1", "2020Q2"],
             "Time": ["2020-01-01/2020-12-31", "2021-01-01/2021-12-31"], "Duration": ["A", "M"]}
@@ -840,13 +879,14 @@ def structural(chk: Check, known: Dict[str, Any]) -> None:
     bad: Dict[str, Tuple[Any, str]] = {}
     n_cases = 0
 
+    jobs: List[TableJob] = []
+    labels: List[Tuple[str, str, str]] = []
+
     def run(form: str, cols: List[N.Col], columns: List[str], rows: List[List[Any]], case: str, tn: str) -> None:
         nonlocal n_cases
         n_cases += 1
-        v, r = N.both(cols, columns, rows, form)
-        d = direction(v, r)
-        if d is not None:
-            bad.setdefault(f"structure::{form}::{case}::{tn}::{d}", (f"{case} ({tn})", f"validate_dataset {N.show(v)}; run() loader {N.show(r)}"))
+        jobs.append((list(cols), list(columns), [list(r) for r in rows], form, None))
+        labels.append((form, case, tn))
 
     for form in ("df", "csv"):
         for tn, (a, b) in good.items():
@@ -876,6 +916,10 @@ def structural(chk: Check, known: Dict[str, Any]) -> None:
             dwi: List[N.Col] = [("Me_1", tn, "Measure", True)]
             run(form, dwi, ["Me_1"], [[a]], "no-identifiers-one-row", tn)
             run(form, dwi, ["Me_1"], [[a], [b]], "no-identifiers-two-rows", tn)
+    for (form, case, tn), (v0, r0, vs, rs) in zip(labels, tables_many(pool, jobs)):
+        d = direction((v0, None), (r0, None))
+        if d is not None:
+            bad.setdefault(f"structure::{form}::{case}::{tn}::{d}", (f"{case} ({tn})", f"validate_dataset {vs}; run() loader {rs}"))
     report(chk, fn, "bounded::structure",
            f"{n_cases} tables through the real validate_dataset and the real run() load step (DataFrame and CSV form, every component "
            "type as identifier and non-nullable measure): valid table, duplicate key (also the same key in two spellings), null "
